@@ -294,6 +294,7 @@ func liveRunNode(dir string) {
 	// consensus status (takes the consensus mutex: it stops when that mutex is never released)
 	go func() {
 		lastStore, lastChange, lastDetail := int64(-1), time.Now(), time.Time{}
+		lastHR := ""
 		for {
 			time.Sleep(liveTick)
 			// GetConsensusStateInfo (the RPC's consensus dump) panics on a peer that the switch has
@@ -313,6 +314,25 @@ func liveRunNode(dir string) {
 			}
 			store := node.Angine.Height()
 			say("STATUS store=%d H=%s R=%s S=%s peers=%d", store, m[1], m[2], m[3], len(peers))
+			// whom this node expects to propose in its current height/round (first "Proposer:" of the
+			// dump = the round's validator set): printed once per height/round
+			if i := strings.Index(rs, "Proposer:"); i >= 0 {
+				line := rs[i:]
+				if j := strings.IndexByte(line, '\n'); j >= 0 {
+					line = line[:j]
+				}
+				if hr := m[1] + "/" + m[2]; hr != lastHR {
+					lastHR = hr
+					pf := strings.Fields(strings.TrimPrefix(line, "Proposer:"))
+					if len(pf) > 0 {
+						pa := strings.TrimPrefix(pf[0], "Validator{")
+						if len(pa) > 16 {
+							pa = pa[:16]
+						}
+						say("PROPOSER %s %s %s", m[1], m[2], pa)
+					}
+				}
+			}
 			if store != lastStore {
 				lastStore, lastChange = store, time.Now()
 			}
@@ -447,6 +467,7 @@ type liveProc struct {
 	redials   int
 	blocks    map[int64]string
 	rounds    map[int64]int64
+	proposers map[string]string // "height/round" -> whom this node expected to propose
 	ntx       map[int64]int
 	runs      int
 }
@@ -601,6 +622,13 @@ func (p *liveProc) line(l string) {
 				}
 				p.height, p.heightAt, p.ticksAtH = hgt, time.Now(), p.ticks
 			}
+		}
+	case "PROPOSER":
+		if len(f) >= 5 {
+			if p.proposers == nil {
+				p.proposers = map[string]string{}
+			}
+			p.proposers[f[2]+"/"+f[3]] = f[4]
 		}
 	case "ROUND":
 		if len(f) >= 4 {
@@ -1335,6 +1363,39 @@ func liveReportStall(c LiveCase, x *h.Ctx, live []*liveProc, victim, stuck *live
 		}
 	}
 	sig := "live-network-stalls"
+	// listed finding: a validator that reloads its state from the database names other proposers
+	// than its peers (the cached proposer is not persisted); when every running validator is needed
+	// for +2/3 that ends the height. Evidence: for one height/round two nodes expected different
+	// proposers, and a validator was restarted.
+	disagree := ""
+	if victim != nil && victim.runs > 1 {
+		views := map[int]map[string]string{}
+		for _, a := range live {
+			a.mu.Lock()
+			cp := map[string]string{}
+			for k, v := range a.proposers {
+				cp[k] = v
+			}
+			a.mu.Unlock()
+			views[a.idx] = cp
+		}
+		for _, a := range live {
+			for _, b := range live {
+				if a.idx >= b.idx {
+					continue
+				}
+				for hr, pa := range views[a.idx] {
+					if pb, ok := views[b.idx][hr]; ok && pb != pa && disagree == "" {
+						disagree = fmt.Sprintf("at height/round %s validator %d expects proposer %s and validator %d expects %s", hr, a.idx, pa, b.idx, pb)
+					}
+				}
+			}
+		}
+	}
+	if disagree != "" && h.IsKnownFor("C12", "proposer-cache-lost-on-reload") {
+		x.Fail("proposer-cache-lost-on-reload", "live network of %d validators (%d running, all needed for +2/3) stalls after validator %d was killed and restarted: %s%s", c.N, len(live), victim.idx, disagree, sb.String())
+		return
+	}
 	if c.Txs && c.SameNonce && flooded > 0 {
 		sig = liveStormSig
 	}
